@@ -674,7 +674,7 @@ def run(chk: Check):
     mcs = [("all flag words", _mc_cfg("all", [0], [9], allv, False)),
            ("kinds x junk flag bits x variants", _mc_cfg(sel, [0, 2048, 63488], known + unknown, [1, 2, 3], False))]
     if not quick:
-        mcs.append(("variant product", _mc_cfg([2047, 0, 1365], [0], [9], [1, 2, 3], True)))
+        mcs.append(("variant product", _mc_cfg([2047, 1365], [0], [9], [1, 2, 3], True)))
     _SEEN.clear()
     with cf.ThreadPoolExecutor(max_workers=1) as ex:
         fut = ex.submit(lambda: [(lab, _run_mc(chk.scratch, n, cfg, 4 if quick else 8)) for n, (lab, cfg) in enumerate(mcs)])
